@@ -13,6 +13,7 @@
 package settle
 
 import (
+	"bytes"
 	"context"
 	"crypto/ecdsa"
 	"crypto/sha256"
@@ -20,6 +21,7 @@ import (
 	"fmt"
 	"io"
 	"math/big"
+	"regexp"
 	"runtime"
 	"sort"
 	"strings"
@@ -122,7 +124,8 @@ func SignCheque(ben, rcp common.Address, cum *big.Int, signer int) (*chequePkg.S
 type Parked struct {
 	Key   string
 	Value string // fmt.Sprint of the value at the time of the call (the *big.Int read by the caller)
-	Tag   string // id of the goroutine that called Put
+	Tag   string // id of the goroutine that called Put / Get
+	Read  bool   // a parked Get (the underlying read HAS been done; its result is handed over on release)
 	rel   chan error
 }
 
@@ -132,6 +135,7 @@ type GateStore struct {
 	storage.StateStorer
 	mu       sync.Mutex
 	prefixes []string
+	rprefixes []string // keys whose Get is parked after the read was done
 	parked   []*Parked
 	event    chan struct{} // signalled on every park
 }
@@ -145,6 +149,41 @@ func (g *GateStore) GatePrefixes(p ...string) {
 	g.mu.Lock()
 	g.prefixes = p
 	g.mu.Unlock()
+}
+
+// GateReads sets which keys have their Get parked (nil = none).  A gated Get performs the real
+// read first and is then held until Release: the caller continues with the value that was in the
+// store when it asked, however long ago that was (C30 parrecv, C33 refresh schedules).
+func (g *GateStore) GateReads(p ...string) {
+	g.mu.Lock()
+	g.rprefixes = p
+	g.mu.Unlock()
+}
+
+func (g *GateStore) Get(key string, i interface{}) error {
+	err := g.StateStorer.Get(key, i)
+	g.mu.Lock()
+	gated := false
+	for _, p := range g.rprefixes {
+		if strings.HasPrefix(key, p) {
+			gated = true
+		}
+	}
+	if !gated {
+		g.mu.Unlock()
+		return err
+	}
+	pk := &Parked{Key: key, Tag: goroutineID(), Read: true, rel: make(chan error, 1)}
+	g.parked = append(g.parked, pk)
+	g.mu.Unlock()
+	select {
+	case g.event <- struct{}{}:
+	default:
+	}
+	if rerr := <-pk.rel; rerr != nil {
+		return rerr
+	}
+	return err
 }
 
 func (g *GateStore) Put(key string, i interface{}) error {
@@ -172,7 +211,63 @@ func (g *GateStore) Put(key string, i interface{}) error {
 	return g.StateStorer.Put(key, i)
 }
 
-// goroutineID returns the id of the calling goroutine (from its stack header).
+// GoroutineID returns the id of the calling goroutine (from its stack header).
+func GoroutineID() string { return goroutineID() }
+
+var (
+	stackMu  sync.Mutex
+	stackBuf []byte
+)
+
+var reFrame = regexp.MustCompile(`(?m)^(\S+)\(`)
+
+// LockWait reports whether goroutine g is waiting in sync.(*Mutex).Lock called directly from a
+// function whose name ends in one of callers (e.g. ".PutRetrieveTraffic").
+func LockWait(g string, callers ...string) bool {
+	// runtime.Stack(all) formats every goroutine; each case leaks a few (the service's ticker and
+	// receipt loops cannot be stopped), so the dump grows with the run: keep one buffer of the size
+	// that was last needed instead of re-dumping with a doubled buffer every time.
+	stackMu.Lock()
+	defer stackMu.Unlock()
+	if stackBuf == nil {
+		stackBuf = make([]byte, 1<<20)
+	}
+	var buf []byte
+	for {
+		n := runtime.Stack(stackBuf, true)
+		if n < len(stackBuf) {
+			buf = stackBuf[:n]
+			break
+		}
+		stackBuf = make([]byte, 2*len(stackBuf))
+	}
+	if len(buf) > len(stackBuf)*3/4 {
+		defer func() { stackBuf = make([]byte, 2*len(stackBuf)) }()
+	}
+	i := bytes.Index(buf, []byte("goroutine "+g+" ["))
+	if i < 0 {
+		return false
+	}
+	sec := buf[i:]
+	if j := bytes.Index(sec, []byte("\n\n")); j >= 0 {
+		sec = sec[:j]
+	}
+	s := string(sec)
+	frames := reFrame.FindAllStringSubmatch(s, -1)
+	for k, f := range frames {
+		if strings.HasSuffix(f[1], "sync.(*Mutex).Lock") && k+1 < len(frames) {
+			c := frames[k+1][1]
+			for _, w := range callers {
+				if strings.HasSuffix(c, w) {
+					return true
+				}
+			}
+			return false
+		}
+	}
+	return false
+}
+
 func goroutineID() string {
 	b := make([]byte, 64)
 	b = b[:runtime.Stack(b, false)]
@@ -395,12 +490,13 @@ type RecStore struct {
 type RecvResult struct {
 	Amount *big.Int
 	Err    error
+	Cheque *chequePkg.SignedCheque // the very pointer that was delivered
 }
 
 func (r *RecStore) ReceiveCheque(ctx context.Context, c *chequePkg.SignedCheque) (*big.Int, error) {
 	a, err := r.ChequeStore.ReceiveCheque(ctx, c)
 	r.mu.Lock()
-	r.Recv = append(r.Recv, RecvResult{a, err})
+	r.Recv = append(r.Recv, RecvResult{a, err, c})
 	r.mu.Unlock()
 	return a, err
 }
@@ -489,6 +585,37 @@ type Script struct {
 	PutTraErr bool
 	Calls     []Call
 	payCh     chan boson.Address
+	// hold mode (C32 first-touch schedules): RetrieveTraffic calls are parked until ReleaseHeld
+	hold bool
+	held []*HeldCall
+}
+
+// HeldCall is one RetrieveTraffic call that is being held back.
+type HeldCall struct {
+	Tag string // goroutine id of the caller
+	rel chan struct{}
+}
+
+// Hold switches the hold mode of RetrieveTraffic on or off.
+func (s *Script) Hold(on bool) { s.mu.Lock(); s.hold = on; s.mu.Unlock() }
+
+// Held returns a snapshot of the parked RetrieveTraffic calls.
+func (s *Script) Held() []*HeldCall {
+	s.mu.Lock()
+	defer s.mu.Unlock()
+	return append([]*HeldCall(nil), s.held...)
+}
+
+// ReleaseHeld lets every parked RetrieveTraffic call return; it reports how many there were.
+func (s *Script) ReleaseHeld() int {
+	s.mu.Lock()
+	h := s.held
+	s.held = nil
+	s.mu.Unlock()
+	for _, c := range h {
+		close(c.rel)
+	}
+	return len(h)
 }
 type Call struct {
 	Name   string
@@ -528,12 +655,21 @@ func (s *Script) TransferTraffic(peer boson.Address) (*big.Int, error) {
 }
 func (s *Script) RetrieveTraffic(peer boson.Address) (*big.Int, error) {
 	s.mu.Lock()
-	defer s.mu.Unlock()
 	s.rec("RetrieveTraffic", peer, nil)
-	if s.Retrieve == nil {
+	ans := cp(s.Retrieve)
+	var hc *HeldCall
+	if s.hold {
+		hc = &HeldCall{Tag: goroutineID(), rel: make(chan struct{})}
+		s.held = append(s.held, hc)
+	}
+	s.mu.Unlock()
+	if hc != nil {
+		<-hc.rel
+	}
+	if ans == nil {
 		return nil, errScript
 	}
-	return cp(s.Retrieve), nil
+	return ans, nil
 }
 func (s *Script) PutRetrieveTraffic(peer boson.Address, t *big.Int) error {
 	s.mu.Lock()
